@@ -3,14 +3,33 @@ import publishcommon as pc
 from verifkit import Infra
 
 
+def replay(ctx):
+    """--replay <artefact>: re-run the recorded batch (same seeded inputs; the schedule cannot be reproduced)."""
+    import json
+    art = json.load(open(ctx.replay)) if ctx.replay.endswith(".json") else {}
+    how = art.get("how") or {}
+    if "seed" not in how:
+        raise Infra("artefact %s carries no batch description to re-run" % ctx.replay)
+    binp = ctx.build("publish")
+    d, trace_path, _ = pc.record(ctx, binp, "replay", how["seed"], how.get("streams", 1), how.get("runs", 4), how.get("blocks", 34), traceruns=8)
+    if d is not None:
+        ctx.cov["driver_violation_signatures"] = pc.report_driver_violations(ctx, d, trace_path, "replay", how)
+        pc.validate(ctx, trace_path, "replay", how)
+        ctx.cov["evaluations"] = sum(r["observations"] for r in d["runs"])
+        ctx.cov["distinct_nontrivial"] = sum(r["distinct_block_phase_pairs_observed_during_an_import"] for r in d["runs"])
+    ctx.cov["rule"] = "replay of the batch recorded in %s (wanted signature: %s)" % (ctx.replay, art.get("signature"))
+
+
 def run(ctx):
     q = ctx.quick
+    if ctx.replay:
+        return replay(ctx)
     # 1. design level: Publish.tla, exhaustive; the seeded variants must violate what they are meant to violate
     pc.design_level(ctx)
     # 2. implementation -> model
     binp = ctx.build("publish")
     demo_ok = pc.binding_demo(ctx, binp)
-    batches = [("main", ctx.seed, 6, 9, 34, 14)] if q else [("main", ctx.seed, 20, 14, 40, 40), ("long", ctx.seed + 500, 6, 8, 90, 12)]
+    batches = [("main", ctx.seed, 7, 10, 34, 14)] if q else [("main", ctx.seed, 20, 14, 40, 40), ("long", ctx.seed + 500, 6, 8, 90, 12)]
     tot = dict(runs=0, obs=0, fin=0, reads=0, api=0, raced=0, stale=0, distinct=0, pairs=0, best_changes=0, reorgs=0, diverged=0,
                quiesce=0, sims=0, queries=0)
     phases = {}
